@@ -51,6 +51,9 @@ CORO_DEFUSE = [
     ("coro-await-dynamic-index-later", ["self.trace <<= 5", "await self.in0", "v @= v + 1", "await self.trace[v]", "self.seen <<= 3"], "any"),
     ("coro-explicit-temporary-across-await", ["t = cohdl.Temporary[Unsigned[3]](cnt + 1, maybe_uninitialized=True)", "await self.in2", "self.seen <<= t"], "any"),
     ("coro-explicit-temporary-same-state", ["await self.in2", "t = cohdl.Temporary[Unsigned[3]](cnt + 1, maybe_uninitialized=True)", "self.seen <<= t"], "any"),
+    ("coro-loop-temporary-continue", ["while True:", "    t = cnt + 1", "    await self.in0", "    if self.in1:", "        continue", "    self.seen <<= t"], "any"),
+    ("coro-loop-temporary-break", ["while self.in2:", "    t = cnt + 1", "    await self.in0", "    if self.in1:", "        break", "    self.seen <<= t", "self.trace <<= 3"], "any"),
+    ("coro-loop-temporary-after-loop", ["while self.in2:", "    t = cnt + 1", "    await self.in0", "self.seen <<= t"], "reject"),
     ("coro-branch-def-then-await", ["if self.in0:", "    t = self.in1 | self.in2", "    await self.in2", "    if t:", "        self.trace <<= 2"], "reject"),
 ]
 
